@@ -168,6 +168,17 @@ Proof.
 Qed.
 Print Assumptions C15_supported_set_is_static.
 
+(* a certificate text that cannot be read as a certificate is "another certificate" too: it never verifies,
+   whoever verifies (in particular an entity holding the very key that signed), whatever sigkey is given *)
+Theorem C15_unreadable_cert_never_verifies :
+  forall T st e q sk, verifies (verify_presented T st e q PUnreadable sk) = false.
+Proof.
+  intros T st e q sk. unfold verifies, verify_presented.
+  destruct (verify_redirect_signature T st e q None sk) as [st' [[[|]|]|err]]; cbn [snd fst]; try reflexivity.
+  destruct (str_eqb err KeyError || str_eqb err Unsupported); reflexivity.
+Qed.
+Print Assumptions C15_unreadable_cert_never_verifies.
+
 (* ---- (2) schedules ----
    t_shared actual (regenerated: measured on the real objects on every run) says whether get_signer hands out
    the module-level signer object and stores the caller's key on it (true today) or a fresh object per call.
